@@ -162,7 +162,7 @@ class DocTaint:
             if short == "get_filters":
                 return ("RAW", "RAW")
             k = self.kind(it)
-            if k in ("LIST", "RAW"):
+            if k in ("LIST", "RAW", "VEC"):
                 return "RAW"
             if k == "PAIRS":
                 return (None, "RAW")
@@ -174,7 +174,7 @@ class DocTaint:
         k = self.kind(it)
         if k == "FPAIRS":
             return ("RAW", "RAW")
-        if k in ("LIST", "RAW", "DICT"):
+        if k in ("LIST", "RAW", "DICT", "VEC"):
             return "RAW" if k != "DICT" else None
         if k == "PAIRS":
             return (None, "RAW")
@@ -203,7 +203,7 @@ class DocTaint:
                     return ch
                 else:
                     vk = self.kind(v)
-                    if vk in ("LIST", "RAW"):
+                    if vk in ("LIST", "RAW", "VEC"):
                         k = tuple(["RAW"] * len(t.elts))
                     elif vk == "PAIRS":
                         k = tuple([(None, "RAW")] * len(t.elts))
@@ -278,6 +278,8 @@ class DocTaint:
             if k in ("DICT", "STREAM", "RAW"):
                 return "RAW"
             if k == "LIST":
+                return "LIST" if isinstance(e.slice, ast.Slice) else "RAW"
+            if k == "VEC":
                 return "LIST" if isinstance(e.slice, ast.Slice) else "RAW"
             if k == "PAIRS":
                 return "PAIRS" if isinstance(e.slice, ast.Slice) else None
